@@ -756,19 +756,30 @@ structure Router.WF (r : Router) : Prop where
 theorem Router.new_wf (cfg : RouterCfg) : (Router.new cfg).WF :=
   ⟨by simp [Router.new, aKeys], ESlab.new_wf _, Cache.new_wf _⟩
 
+theorem ESlab.putValue_wf (s : ESlab) (id : Nat) (val : TData) (h : s.WF) : (s.putValue id val).WF := by
+  unfold ESlab.putValue
+  cases val.embOf with
+  | none => exact ESlab.delete_wf _ _ h
+  | some vec =>
+    simp only
+    cases hs : s.set id vec with
+    | none => exact ESlab.delete_wf _ _ h
+    | some e => exact ESlab.set_wf _ _ _ _ h hs
+
+theorem ESlab.putValue_dim (s : ESlab) (id : Nat) (val : TData) : (s.putValue id val).dim = s.dim := by
+  unfold ESlab.putValue
+  cases val.embOf with
+  | none => rfl
+  | some vec =>
+    simp only
+    cases hs : s.set id vec with
+    | none => rfl
+    | some e => exact ESlab.set_dim _ _ _ _ hs
+
 theorem Router.put_wf (r : Router) (key : Name) (val : TData) (victim : Nat) (h : r.WF) : (r.put key val victim).WF := by
   unfold Router.put
   cases classifyKey key with
-  | embedding =>
-    simp only
-    refine ⟨aKeys_aInsert_nodup key val r.md h.md, ?_, h.cache⟩
-    cases val.embOf with
-    | none => exact ESlab.delete_wf _ _ h.emb
-    | some vec =>
-      simp only
-      cases hs : r.emb.set (r.index.getOrCreate key).2 vec with
-      | none => exact ESlab.delete_wf _ _ h.emb
-      | some e => exact ESlab.set_wf _ _ _ _ h.emb hs
+  | embedding => exact ⟨aKeys_aInsert_nodup key val r.md h.md, ESlab.putValue_wf _ _ _ h.emb, h.cache⟩
   | cache => exact ⟨h.md, h.emb, Cache.put_wf _ _ _ _ _ _ h.cache⟩
   | graph => exact ⟨aKeys_aInsert_nodup key val r.md h.md, h.emb, h.cache⟩
   | table => exact ⟨aKeys_aInsert_nodup key val r.md h.md, h.emb, h.cache⟩
